@@ -14,9 +14,9 @@ CHECKS = {
    note="Timer-driven flushes are not scheduled by the replay (forced flushes only); PERCENTILE and shifted fields are not in this check's schema.",
    technique="TLA+ model checking (TLC) + replay of TLC behaviours into the real code + trace validation"),
  "C02": dict(level="model_checking", design="5 C02",
-   text="TLC explores every interleaving of ingest, flush, offset-file and crash/recovery steps of spec/Store.tla for small constants (invariants ExactlyOnce, AtMostOnce, MemLockStep, DiskLockStep, OffsetsOrdered); TLC-simulated behaviours with crash images at every instrumented step are replayed on the real database through scheduler gates, every recorded trace is validated against the specification with the same predicates evaluated at every step, and the caught-up end state is compared with the reference bag of point ids.",
-   note="Crash = loss of all volatile state at a hook point (process-kill model: the page cache survives; fsync omissions are invisible). Bounds: <= 6 WAL entries, <= 5 flushes, <= 3 crash/restart rounds per behaviour. Trusted: TLC, the harness's decoding of query rows into bags.",
-   technique="TLA+ model checking (TLC) + replay of TLC behaviours into the real code + trace validation"),
+   text="TLC explores every interleaving of ingest, flush, offset-file and crash/recovery steps of spec/Store.tla for small constants (invariants ExactlyOnce, AtMostOnce, MemLockStep, DiskLockStep, OffsetsOrdered); TLC-simulated behaviours with crash images at every instrumented step are replayed on the real database through scheduler gates, every recorded trace is validated against the specification with the same predicates evaluated at every step, and the caught-up end state is compared with the reference bag of point ids. Asynchronous part: a child process ingesting with 1-3 ms timer flushes is killed with SIGKILL at random instants, three rounds per directory; every acknowledged point must then be in every table exactly once, a point in flight at most once.",
+   note="Crash = loss of all volatile state at a hook point, or SIGKILL of a child process at a random instant (process-kill model: the page cache survives; fsync omissions are invisible). Bounds: <= 6 WAL entries, <= 5 flushes, <= 3 crash/restart rounds per behaviour. Trusted: TLC, the harness's decoding of query rows into bags.",
+   technique="TLA+ model checking (TLC) + replay of TLC behaviours into the real code + trace validation + asynchronous SIGKILL of a child process"),
 }
 
 CHECKS["C14"] = dict(level="model_checking", design="5 C14",
